@@ -169,7 +169,8 @@ Definition is_hex (c : Z) : bool :=
 Definition hex_val (c : Z) : Z :=
   if c <=? 57 then c - 48 else if c <=? 70 then c - 65 + 10 else c - 97 + 10.
 
-Fixpoint decode_loop (fuel : nat) (b : list Z) (i : Z) : res (list Z) :=
+(* decodeURL(b, plus): '+' becomes a space only if plus is set *)
+Fixpoint decode_loop (plus : bool) (fuel : nat) (b : list Z) (i : Z) : res (list Z) :=
   match fuel with
   | O => OutOfFuel
   | S f =>
@@ -187,17 +188,19 @@ Fixpoint decode_loop (fuel : nat) (b : list Z) (i : Z) : res (list Z) :=
                   | None => Panic
                   | Some h2 =>
                       if is_hex h2
-                      then decode_loop f (firstz i b ++ ((hex_val h1 * 16 + hex_val h2) mod 256) :: skipz (i + 3) b) (i + 1)
-                      else decode_loop f b (i + 1)
+                      then decode_loop plus f (firstz i b ++ ((hex_val h1 * 16 + hex_val h2) mod 256) :: skipz (i + 3) b) (i + 1)
+                      else decode_loop plus f b (i + 1)
                   end
-                else decode_loop f b (i + 1)
+                else decode_loop plus f b (i + 1)
             end
-          else if c =? 43 then decode_loop f (setz b i 32) (i + 1)
-          else decode_loop f b (i + 1)
+          else if plus && (c =? 43) then decode_loop plus f (setz b i 32) (i + 1)
+          else decode_loop plus f b (i + 1)
       end
   end.
 
-Definition decode_url (b : list Z) : res (list Z) := decode_loop (Z.to_nat (len b + 1)) b 0.
+Definition decode_url_gen (plus : bool) (b : list Z) : res (list Z) := decode_loop plus (Z.to_nat (len b + 1)) b 0.
+(* DecodeURL(b) = decodeURL(b, true) *)
+Definition decode_url (b : list Z) : res (list Z) := decode_url_gen true b.
 
 (* --- encoding/base64 StdEncoding.Decode: Some bytes, or None for any CorruptInputError ----- *)
 Definition b64_val (c : Z) : Z :=
@@ -262,8 +265,9 @@ Section DataURI.
   (* base64.StdEncoding.Decode: None = error *)
   Variable b64dec : list Z -> option (list Z).
 
-  (* rest is dataURI[j:]; i, the media type built so far and inBase64 are the loop's variables *)
-  Fixpoint datauri_loop (u rest : list Z) (j i : Z) (mt : list Z) (inb : bool) : res dres :=
+  (* rest is dataURI[j:]; i, the media type built so far, inBase64 and prev (the previous delimiter,
+     0 at the start) are the loop's variables *)
+  Fixpoint datauri_loop (u rest : list Z) (j i : Z) (mt : list Z) (inb : bool) (prev : Z) : res dres :=
     match rest with
     | [] => Ok DBad
     | c :: rest' =>
@@ -273,7 +277,7 @@ Section DataURI.
           | None => Panic
           | Some seg =>
               let '(mt1, inb1, i1) :=
-                if negb (c =? 61) && list_eqb seg base64_bytes then
+                if negb (c =? 61) && negb (prev =? 61) && list_eqb seg base64_bytes then
                   ((if 0 <? len mt then firstz (len mt - 1) mt else mt), true, j)
                 else if negb (c =? 44) then (mt ++ seg ++ [c], inb, j + 1)
                 else (mt ++ seg, inb, i) in
@@ -288,20 +292,20 @@ Section DataURI.
                       | None => Ok DB64Err
                       end
                     else
-                      match decode_url rest' with
+                      match decode_url_gen false rest' with        (* a plus sign is not a space in a data URI *)
                       | Ok d => Ok (DOk mt2 d)
                       | Panic => Panic
                       | OutOfFuel => OutOfFuel
                       end
                 end
-              else datauri_loop u rest' (j + 1) i1 mt1 inb1
+              else datauri_loop u rest' (j + 1) i1 mt1 inb1 c
           end
-        else datauri_loop u rest' (j + 1) i mt inb
+        else datauri_loop u rest' (j + 1) i mt inb prev
     end.
 
   Definition data_uri (b : list Z) : res dres :=
     if (5 <? len b) && list_eqb (firstz 5 b) data_scheme then
-      let u := skipz 5 b in datauri_loop u u 0 0 [] false
+      let u := skipz 5 b in datauri_loop u u 0 0 [] false 0
     else Ok DBad.
 End DataURI.
 
